@@ -88,6 +88,25 @@ for w, txt in [('null', 'null'), ('null_cap', 'Null'), ('true', 'true'), ('false
                              'what': 'the type-like word "%s" is quoted (or, if not, is no core-schema literal)' % txt}
 GROUPS['C09'] = [{'crate': 'saphyr', 'appends': {'emitter.rs': 'emitter_harness.rs'}, 'timeout': 3000, 'harness_timeout': 1500, 'harnesses': _c09}]
 
+_c10 = {
+    'c10_str_predicates_len4': {'obl': 'StrInput.byte-predicates==defaults.len4', 'kind': 'bounded', 'tier': 'quick',
+        'bound': 'every valid UTF-8 string of at most 4 bytes',
+        'what': 'the byte-indexed StrInput overrides next_is_blank / break / breakz / z / blank_or_break / blank_or_breakz / flow / digit / alpha, next_is_document_start / end / indicator and next_can_be_plain_scalar (both flow settings) give the same answer as the provided (default) trait methods on the same input'},
+    'c10_str_predicates_len6': {'obl': 'StrInput.byte-predicates==defaults.len6', 'kind': 'bounded', 'tier': 'thorough',
+        'bound': 'every valid UTF-8 string of at most 6 bytes', 'what': 'same, up to 6 bytes'},
+    'c10_str_blank_len3': {'obl': 'StrInput.skip_while_blank==default.len3', 'kind': 'bounded', 'tier': 'quick',
+        'bound': 'every valid UTF-8 string of at most 3 bytes over {space, tab, #, LF, CR, a, a two-byte character}',
+        'what': 'StrInput::skip_while_blank returns the same count and leaves the same remaining input as the default method'},
+    'c10_str_blank_len4': {'obl': 'StrInput.skip_while_blank==default.len4', 'kind': 'bounded', 'tier': 'thorough',
+        'bound': 'same alphabet, at most 4 bytes', 'what': 'same, up to 4 bytes'},
+    'c10_str_ws_eol_comment1': {'obl': 'StrInput.skip_ws_to_eol==default.comment', 'kind': 'bounded', 'tier': 'quick',
+        'bound': 'the inputs " #x" for x in {space, #, LF, CR, a, NUL} (SkipTabs::Yes): the comment path with every kind of comment end',
+        'what': 'StrInput::skip_ws_to_eol returns the same count and verdict and leaves the same remaining input as the default method'},
+    'c10_str_ws_eol_len2': {'obl': 'StrInput.skip_ws_to_eol==default.len2', 'kind': 'bounded', 'tier': 'thorough',
+        'bound': 'every valid UTF-8 string of at most 2 bytes over the white-space alphabet, both SkipTabs settings', 'what': 'same, all strings up to 2 bytes (about 16 minutes)'},
+}
+GROUPS['C10'] = [{'crate': 'saphyr-parser', 'appends': {'input/str.rs': 'strinput_harness.rs'}, 'timeout': 4000, 'harness_timeout': 1500, 'harnesses': _c10}]
+
 CACHE = os.environ.get('VERIF_CACHE') or os.path.join(ROOT, '.cache')
 
 
